@@ -11,6 +11,8 @@ Tr == ndJsonDeserialize(IOEnv.TRACE_FILE)
 VARIABLES t, l
 tvars == <<vars, t, l>>
 
+\* traces flagged `modelled = FALSE` use settings outside the pool of SharedState: only the
+\* property-on-trace clauses apply to them (their refinement step is a stutter over the whole trace)
 TInit == /\ Init /\ l = 1 /\ \E k \in 1..Len(Tr) : t = k
 Ev == Tr[t].ev[l]
 
@@ -20,6 +22,7 @@ Matches(e) ==
   /\ \A k \in reg' : order'[k] = e.order[k] /\ base'[k] = e.base[k]
 
 TStep ==
+  /\ Tr[t].modelled
   /\ l <= Len(Tr[t].ev) /\ l' = l + 1 /\ t' = t
   /\ LET e == Ev  c == e.call IN
      /\ CASE c[1] = "parse"  -> Parse(c[2], c[3], c[4])
